@@ -727,6 +727,11 @@ func (s *Store) Select(arr, idx *Term) *Term {
 			return v // ground lookup in a long constant table: not a rewrite worth auditing
 		}
 	}
+	if idx.op != OpConst && arr.op == OpStore {
+		if v := s.muxSelect(arr, idx); v != nil {
+			return v
+		}
+	}
 	cur := arr
 	for {
 		switch cur.op {
@@ -808,6 +813,107 @@ func (s *Store) flatSelect(arr *Term, idx uint64) (*Term, bool) {
 type flatArr struct {
 	m    map[uint64]*Term
 	base *Term
+}
+
+// muxSelect: a symbolic-index read of a ground lookup table (>= 64 stores at
+// constant indices over a constant array) whose index provably fits in k <= 12
+// bits becomes a balanced multiplexer tree over those k index bits - the same
+// function, correct by construction from the table, and far easier for a
+// bit-blasting solver than a select over a chain of hundreds of stores.
+func (s *Store) muxSelect(arr, idx *Term) *Term {
+	k := maxBits(idx)
+	if k > 12 || k == 0 {
+		return nil
+	}
+	s.flatSelect(arr, 0) // builds the cache if the chain qualifies
+	fa := s.flat[arr.id]
+	if fa == nil || fa.base.op != OpConstArr {
+		return nil
+	}
+	ew := arrElem(arr.w)
+	def := s.Const(ew, fa.base.val)
+	bit := make([]*Term, k)
+	for i := 0; i < k; i++ {
+		bit[i] = s.Eq(s.Extract(i, i, idx), s.Const(1, 1))
+	}
+	var rec func(pos int, prefix uint64) *Term
+	rec = func(pos int, prefix uint64) *Term {
+		if pos < 0 {
+			if v, ok := fa.m[prefix]; ok {
+				return v
+			}
+			return def
+		}
+		hi := rec(pos-1, prefix|1<<uint(pos))
+		lo := rec(pos-1, prefix)
+		if hi == lo {
+			return hi
+		}
+		return s.Ite(bit[pos], hi, lo)
+	}
+	return rec(k-1, 0)
+}
+
+// maxBits: an upper bound on the number of low bits of t that can be non-zero.
+func maxBits(t *Term) int {
+	var rec func(t *Term, d int) int
+	rec = func(t *Term, d int) int {
+		w := t.w
+		if w <= 0 {
+			return 64
+		}
+		if d > 24 {
+			return w
+		}
+		min := func(a, b int) int {
+			if a < b {
+				return a
+			}
+			return b
+		}
+		max := func(a, b int) int {
+			if a > b {
+				return a
+			}
+			return b
+		}
+		switch t.op {
+		case OpConst:
+			n := 0
+			for v := t.val; v != 0; v >>= 1 {
+				n++
+			}
+			return min(n, w)
+		case OpZext:
+			return min(rec(t.a[0], d+1), t.a[0].w)
+		case OpAnd:
+			return min(rec(t.a[0], d+1), rec(t.a[1], d+1))
+		case OpOr, OpXor:
+			return max(rec(t.a[0], d+1), rec(t.a[1], d+1))
+		case OpAdd:
+			return min(w, max(rec(t.a[0], d+1), rec(t.a[1], d+1))+1)
+		case OpShl:
+			if t.a[1].op == OpConst && t.a[1].val < 64 {
+				return min(w, rec(t.a[0], d+1)+int(t.a[1].val))
+			}
+		case OpLshr:
+			if t.a[1].op == OpConst && t.a[1].val < 64 {
+				return max(0, rec(t.a[0], d+1)-int(t.a[1].val))
+			}
+		case OpIte:
+			return max(rec(t.a[1], d+1), rec(t.a[2], d+1))
+		case OpExtract:
+			return min(t.p1-t.p2+1, max(0, rec(t.a[0], d+1)-t.p2))
+		case OpConcat:
+			hi := rec(t.a[0], d+1)
+			if hi == 0 {
+				return rec(t.a[1], d+1)
+			}
+			return min(w, hi+t.a[1].w)
+		}
+		return w
+	}
+	return rec(t, 0)
 }
 
 // ArrCopy: the array dst with n elements of src, starting at soff, copied to
